@@ -439,6 +439,39 @@ func (c *Ctx) c19Rules() {
 		}
 		r.Check(okMin && okMax, "C19.rules", name, "lengthErr iff len<Min || len>Max", posf(c, call), "length bounds are strict comparisons with MinLength / MaxLength", "length error is not reported exactly under len<MinLength (when set) or len>MaxLength (when set)")
 	}
+	// a rule that failed is reported: from the point where its message is built
+	// (or its pattern did not match) every path to a return collects an error —
+	// nothing in between (an "empty message" shortcut, a deduplication) drops it
+	isAppend := func(i ssa.Instruction) bool {
+		call, ok := i.(*ssa.Call)
+		if !ok {
+			return false
+		}
+		bi, isB := call.Call.Value.(*ssa.Builtin)
+		return isB && bi.Name() == "append"
+	}
+	for _, call := range Calls(e) {
+		cn := Callee(call)
+		isMsg := strings.HasPrefix(cn, "(ab/defaults.Rules).") && strings.HasSuffix(cn, "Err")
+		isMatch := cn == "(*regexp.Regexp).MatchString" && fieldLoadName(Arg(call, 0)) == "MustMatch"
+		if !isMsg && !isMatch {
+			continue
+		}
+		q := PathQuery{From: call.(ssa.Instruction), Cut: isAppend, Goal: IsReturn}
+		what := strings.TrimPrefix(cn, "(ab/defaults.Rules).")
+		if isMatch {
+			if call.Value() == nil {
+				continue
+			}
+			q.Assume = map[ssa.Value]bool{call.Value(): false}
+			what = "MustMatch"
+		}
+		if p := q.Find(); p != nil {
+			r.Bad("C19.rules", name, what+" failure ⇒ error collected", posf(c, call), "a value that fails this rule can be accepted: between detecting the failure and adding its error there is a way out (an empty message, a duplicate) that adds nothing", c.P.DescribePath(p)...)
+		} else {
+			r.Ok("C19.rules", name, what+" failure ⇒ error collected", posf(c, call), "every path from the failure adds an error")
+		}
+	}
 	// nil iff nothing appended
 	for _, b := range e.Blocks {
 		for _, in := range b.Instrs {
